@@ -246,6 +246,14 @@ class HoistLiterals(NodeVisitor):
 
         return self.generic_visit(node)
 
+    def visit_AnnAssign(self, node):
+        if self._ignore_slots and isinstance(node.namespace, ast.ClassDef):
+            if isinstance(node.target, ast.Name) and node.target.id == '__slots__':
+                # This is an annotated __slots__ assignment, don't hoist the literals
+                return None
+
+        return self.generic_visit(node)
+
 
 def rename_literals(module):
     HoistLiterals()(module)
